@@ -44,15 +44,38 @@ class Norm:
             self._bodies[key] = cfg.Body(self.F.body(key))
         return self._bodies[key]
 
-    def ret(self, key, argmap=None, depth=0):
-        """Normal form of the value returned by local body `key`."""
+    def ret(self, key, argmap=None, depth=0, gmap=None):
+        """Normal form of the value returned by local body `key`. `gmap` maps the body's generic parameter names to
+        type indices of the call site (used to see through `f(&transient)` when f is a closure given as a generic argument)."""
         F = self.F
         B = self.B(key)
         ds = B.defs().get(0, [])
         if len(ds) != 1:
             return ("opaque", "%s returns one of %d values" % (key, len(ds)))
         e = symx.local_expr(F, B, 0, 0)
-        return self.norm(e, argmap or {}, depth)
+        old = getattr(self, "_gmap", None)
+        self._gmap = gmap or {}
+        try:
+            return self.norm(e, argmap or {}, depth)
+        finally:
+            self._gmap = old
+
+    def _gmap_for(self, callee_key, e):
+        b = self.F.body(callee_key)
+        if b is None or len(e) < 8:
+            return {}
+        names = [g["name"] for g in b["generics"]]
+        out = {}
+        for n, a in zip(names, e[7]):
+            if a[0] == "t":
+                out[n] = a[1]
+        # arguments that are still the caller's own parameters: resolve through the caller's map
+        cur = getattr(self, "_gmap", None) or {}
+        for n, ti in list(out.items()):
+            t = self.F.ty(ti)
+            if t["k"] == "param" and t["name"] in cur:
+                out[n] = cur[t["name"]]
+        return out
 
     def norm(self, e, argmap, depth=0):
         F = self.F
@@ -107,13 +130,24 @@ class Norm:
                 if o == ("offset_of", x):
                     return ("sub_off", x)
                 return ("opaque", "byte_sub(%s, %s)" % (x, o))
+            if path in ("core::ops::function::FnOnce::call_once", "core::ops::function::FnMut::call_mut", "core::ops::function::Fn::call") and len(args) == 2 and len(e) > 6 and e[6]:
+                # calling a callable of generic type: if the call site supplied a capture-free closure / fn item, inline it
+                ft = F.ty(F.strip_refs(e[6][0]))
+                if ft["k"] == "param" and ft["name"] in (getattr(self, "_gmap", None) or {}):
+                    ft = F.ty(F.strip_refs(self._gmap[ft["name"]]))
+                tup = args[1]
+                if ft["k"] in ("closure", "fndef") and ft["def"] in F.bodies and tup[0] == "agg" and tup[1] == "tuple":
+                    first = 2 if ft["k"] == "closure" else 1
+                    am = {first + i: self.norm(a, argmap, depth + 1) for i, a in enumerate(tup[4])}
+                    return self.ret(ft["def"], am, depth + 1, getattr(self, "_gmap", None))
+                return ("opaque", "%s(..)" % name)
             b = F.body(path)
             if b is not None:
                 imp = b.get("impl") or {}
                 if imp and F.is_adt(imp["self_ty"], F.inner_path) and F.ts(b["output"]) == "usize" and args:
                     return ("offset_of", self.norm(args[0], argmap, depth + 1))
                 am = {i + 1: self.norm(a, argmap, depth + 1) for i, a in enumerate(args)}
-                return self.ret(path, am, depth + 1)
+                return self.ret(path, am, depth + 1, self._gmap_for(path, e))
             return ("opaque", "%s(..)" % name)
         if k == "bin":
             return ("bin", e[1], self.norm(e[2], argmap, depth + 1), self.norm(e[3], argmap, depth + 1))
